@@ -737,7 +737,8 @@ def fast_parse_imzml(
         UserWarning: when callback returns False
     """
 
-    re_accession = re.compile('accession="(I?MS:\\d+)(?:.*value="([\\w.]+)")?')
+    # values may contain signs, e.g. '1.5e+06'
+    re_accession = re.compile('accession="(I?MS:\\d+)(?:.*value="([^"]+)")?')
 
     def parse_param_group(fp: TextIOBase, line: str, id: str) -> ParamGroup:
         cvs = {}
